@@ -32,6 +32,7 @@ type Engine struct {
 	usedSpecs map[string]*SpecFunc
 	curInstr  ssa.Instruction
 	fuel      int
+	bits      map[string]bitInfo // terms known to be single-bit masks (or their complements)
 }
 
 type deferred struct {
